@@ -9,3 +9,5 @@ if(VERIF_FLAVOUR STREQUAL "asan")
     target_link_options(fz_${fz} PRIVATE -fsanitize=fuzzer)
   endforeach()
 endif()
+
+verif_exe(valtool valtool.cpp)
